@@ -71,6 +71,34 @@ def _prop(ev, obj, name):
     return ev.getattr(obj, name, ast.parse(name, mode='eval').body, Path({}))
 
 
+def _unclip(e):
+    """the rounding guard min(max(x, -1), 1) is the identity on a normalised dot product (Cauchy-Schwarz): compare modulo it"""
+    e = sp.sympify(e)
+
+    def strip(x):
+        if isinstance(x, sp.Min) and len(x.args) == 2 and 1 in x.args:
+            y = [a_ for a_ in x.args if a_ != 1][0]
+            if isinstance(y, sp.Max) and len(y.args) == 2 and -1 in y.args:
+                return [a_ for a_ in y.args if a_ != -1][0]
+        if isinstance(x, sp.Max) and len(x.args) == 2 and -1 in x.args:
+            y = [a_ for a_ in x.args if a_ != -1][0]
+            if isinstance(y, sp.Min) and len(y.args) == 2 and 1 in y.args:
+                return [a_ for a_ in y.args if a_ != 1][0]
+        return x
+    prev = None
+    while prev != e:
+        prev = e
+        e = e.replace(lambda x: isinstance(x, (sp.Min, sp.Max)), strip)
+    return e
+
+
+def _one_ret(paths):
+    live = [q for q in paths if q.done == 'return']
+    if len(live) != 1:
+        raise Opaque('no single returning path')
+    return live[0].ret
+
+
 def chain(ctx):
     ev, cls, shape, plane, va = _env(ctx)
     loc = BOX + '::Box.set_abc'
@@ -135,15 +163,43 @@ def chain(ctx):
     ev.call_fn(fn, [box, W[0], W[1], W[2], og], {}, Path({}))
     ctx.ob('CHAIN', BOX + '::Box.set_vectors', 'the three given vectors become rows a, b, c; origin as given',
            equal(box.attrs['_Box__vects'], W) and equal(box.attrs['_Box__origin'], og), node=fn)
-    # dispatch of set(): parameter-set keys route to the right setter
+    # dispatch of set(): Box.set interpreted with recording setters
     st = ctx.fn(BOX, 'Box.set')
-    routes = {}
-    for n in ast.walk(st):
-        if isinstance(n, ast.If) and isinstance(n.test, ast.Compare) and isinstance(n.test.left, ast.Constant) and norm(n.test.comparators[0]) == 'kwargs':
-            cs = [norm(c.func) for c in calls_in(ast.Module(n.body, []))]
-            routes[n.test.left.value] = cs
-    ok = ('self.set_vectors' in routes.get('avect', []) and 'self.set_lengths' in routes.get('lx', []) and 'self.set_hi_los' in routes.get('xlo', []) and 'self.set_abc' in routes.get('a', []))
-    ctx.ob('CHAIN', BOX + '::Box.set', 'each parameter set is routed to its own setter', ok, str(routes), node=st)
+    A_, B_, C_, O_ = (symarray(k, (3,), real=True) for k in 'pqrs')
+    sets = [('set_vectors', dict(avect=A_, bvect=B_, cvect=C_, origin=O_)), ('set_lengths', dict(lx=a, ly=b, lz=c, xy=al, origin=O_)), ('set_hi_los', dict(xlo=a, xhi=b, ylo=a, yhi=b, zlo=a, zhi=c, xz=al)),
+            ('set_abc', dict(a=a, b=b, c=c, alpha=al, beta=be, gamma=ga))]
+    bad = []
+    for want, kw in sets:
+        rec = []
+        bx = _box(cls, shape)
+        for nm in ('set_vectors', 'set_lengths', 'set_hi_los', 'set_abc'):
+            bx.attrs[nm] = (lambda _n: (lambda **k: rec.append((_n, k))))(nm)
+        try:
+            ev.call_fn(st, [bx], dict(kw), Path({}))
+        except (Opaque, WouldRaise) as e:
+            bad.append('%s: %s' % (want, e))
+            continue
+        if len(rec) != 1 or rec[0][0] != want or set(rec[0][1]) != set(kw) or any(rec[0][1][k] is not kw[k] for k in kw):
+            bad.append('%s: routed to %s' % (sorted(kw), [(r[0], sorted(r[1])) for r in rec]))
+    ctx.ob('CHAIN', BOX + '::Box.set', 'each parameter set (three vectors / LAMMPS lengths and tilts / lo-hi bounds / lengths and angles) is routed, whole, to its own setter', not bad, '; '.join(bad), node=st)
+    bx = _box(cls, shape)
+    ev.call_fn(st, [bx], dict(vects=W, origin=og), Path({}))
+    ctx.ob('CHAIN', BOX + '::Box.set', 'vects= and origin= are stored as given', equal(bx.attrs['_Box__vects'], W) and equal(bx.attrs['_Box__origin'], og), node=st, key='set vects')
+    bx = _box(cls, shape)
+    V0 = bx.attrs['_Box__vects'].copy()
+    ev.call_fn(st, [bx], dict(origin=og), Path({}))
+    ctx.ob('CHAIN', BOX + '::Box.set', 'origin= alone moves the cell and keeps its vectors', equal(bx.attrs['_Box__vects'], V0) and equal(bx.attrs['_Box__origin'], og), node=st, key='set origin')
+    verd = []
+    for kw in (dict(vects=W, a=a), dict(foo=a), dict(vects=W, origin=og, extra=a)):
+        bx = _box(cls, shape)
+        for nm in ('set_vectors', 'set_lengths', 'set_hi_los', 'set_abc'):
+            bx.attrs[nm] = lambda **k: None
+        try:
+            paths = ev.run_fn(st, [bx], dict(kw))
+            verd.append(bool([q for q in paths if q.done == 'return']))
+        except WouldRaise:
+            verd.append(False)
+    ctx.ob('CHAIN', BOX + '::Box.set', 'unknown or surplus parameters are refused', not any(verd), str(verd), node=st, key='set refuse')
 
 
 def getters(ctx):
@@ -157,7 +213,7 @@ def getters(ctx):
     for k, (i, j) in (('alpha', (1, 2)), ('beta', (0, 2)), ('gamma', (0, 1))):
         g = _prop(ev, box, k)
         want = V[i].dot(V[j]) / sp.sqrt(V[i].dot(V[i]) * V[j].dot(V[j]))
-        got = sp.cos(g * sp.pi / 180)
+        got = _unclip(sp.cos(g * sp.pi / 180))
         ctx.ob('GETTERS', BOX + '::Box.' + k, '%s is the angle in degrees between cell vectors %d and %d' % (k, i, j), is_zero(sp.simplify(got - want)), 'cos(%s·π/180) = %s' % (k, sp.simplify(got)), key='angle ' + k)
     g = _prop(ev, box, 'volume')
     det = sp.Matrix(V.tolist()).det()
@@ -167,23 +223,38 @@ def getters(ctx):
     u, w = symarray('u', (3,), real=True), symarray('w', (3,), real=True)
     r = ev.call_fn(vafn, [u, w, 'radian'], {}, Path({}))
     want = u.dot(w) / sp.sqrt(u.dot(u) * w.dot(w))
-    ctx.ob('GETTERS', VA + '::vect_angle', 'radian result is arccos of the normalised dot product', is_zero(sp.simplify(sp.cos(r) - want)), key='vect_angle radian')
+    ctx.ob('GETTERS', VA + '::vect_angle', 'radian result is arccos of the normalised dot product', is_zero(sp.simplify(_unclip(sp.cos(r)) - want)), key='vect_angle radian')
     U2, W2 = symarray('p', (2, 3), real=True), symarray('q', (2, 3), real=True)
     r2 = ev.call_fn(vafn, [U2, W2, 'degree'], {}, Path({}))
-    ok = hasattr(r2, 'shape') and tuple(r2.shape) == (2,) and all(is_zero(sp.simplify(sp.cos(r2[i] * sp.pi / 180) - U2[i].dot(W2[i]) / sp.sqrt(U2[i].dot(U2[i]) * W2[i].dot(W2[i])))) for i in range(2))
+    ok = hasattr(r2, 'shape') and tuple(r2.shape) == (2,) and all(is_zero(sp.simplify(_unclip(sp.cos(r2[i] * sp.pi / 180)) - U2[i].dot(W2[i]) / sp.sqrt(U2[i].dot(U2[i]) * W2[i].dot(W2[i])))) for i in range(2))
     ctx.ob('GETTERS', VA + '::vect_angle', 'stacks of vectors are handled row by row', ok, key='vect_angle stack')
-    tries = [s for s in vafn.body if isinstance(s, ast.Try)]
-    ok = True
-    for t in tries:
-        for s in ast.walk(t):
-            if isinstance(s, ast.Assign):
-                v = s.value
-                val = v.value if isinstance(v, ast.Constant) else (-v.operand.value if isinstance(v, ast.UnaryOp) and isinstance(v.operand, ast.Constant) else None)
-                ok = ok and val in (1, -1)
-                # the guard of the store must be the matching out-of-range test
-                g = norm(s.targets[0].slice) if isinstance(s.targets[0], ast.Subscript) else norm(getattr(s._parent, 'test', None))
-                ok = ok and (('< -1' in g and val == -1) or ('> 1' in g and val == 1))
-    ctx.ob('GETTERS', VA + '::vect_angle', 'the rounding guard only clips cosines beyond ±1 to ±1', ok and len(tries) == 1, key='vect_angle clip')
+    # the rounding guard: norms that come out a hair short (as rounding can make them) push the cosine of (anti)parallel vectors beyond ±1
+    eps = sp.Rational(1, 10 ** 9)
+
+    def short_norm(v, axis=None, keepdims=False, **k):
+        a_ = np.asarray(v, dtype=object)
+        sq = np.sum(a_ * a_, axis=axis, keepdims=bool(keepdims))
+        f = lambda e: sp.sqrt(sp.nsimplify(e)) * (1 - eps)
+        return np.array([f(e) for e in np.ravel(sq)], dtype=object).reshape(np.shape(sq)) if np.ndim(sq) else f(sq)
+    ev3 = SymEval(module_aliases(ctx.mod(VA)))
+    ev3.np_override = {'numpy.linalg.norm': short_norm}
+
+    def cmp_decide(text, v, p):
+        if isinstance(v, sp.core.relational.Relational):
+            d = sp.N(v.lhs - v.rhs, 40)
+            return {sp.StrictLessThan: d < 0, sp.StrictGreaterThan: d > 0, sp.LessThan: d <= 0, sp.GreaterThan: d >= 0}.get(type(v))
+        return None
+    ev3.decide = cmp_decide
+    pairs = [([1, 2, 2], [2, 4, 4], sp.Integer(0)), ([1, 2, 2], [-3, -6, -6], sp.Integer(180)), ([1, 0, 0], [1, 1, 0], None)]
+    try:
+        single = [_one_ret(ev3.run_fn(vafn, [arr(p), arr(q), 'degree'], {})) for p, q, w in pairs]
+        stack = _one_ret(ev3.run_fn(vafn, [arr([p for p, q, w in pairs]), arr([q for p, q, w in pairs]), 'degree'], {}))
+        okc = all(w is None or sp.simplify(sp.sympify(r_) - w) == 0 for (p, q, w), r_ in zip(pairs, single)) and np.shape(stack) == (3,) \
+            and all(w is None or sp.simplify(sp.sympify(r_) - w) == 0 for (p, q, w), r_ in zip(pairs, stack)) and abs(float(sp.N(single[2])) - 45) < 1e-6 and abs(float(sp.N(stack[2])) - 45) < 1e-6
+        det = 'single %s, stacked %s' % ([str(sp.N(x, 8)) for x in single], [str(sp.N(x, 8)) for x in np.ravel(stack)])
+    except (Opaque, WouldRaise) as e:
+        okc, det = False, 'vect_angle cannot be evaluated when a cosine exceeds 1 by rounding: %s' % e
+    ctx.ob('GETTERS', VA + '::vect_angle', 'cosines pushed beyond ±1 by rounding are brought back to ±1 (parallel → exactly 0, antiparallel → exactly 180, single vectors and stacks); cosines within range are left alone', okc, det, key='vect_angle clip')
     # LAMMPS getters on a triangular cell
     Vt, (lx, ly, lz, xy, xz, yz) = _tri()
     box = _box(cls, shape, Vt, o)
@@ -216,7 +287,7 @@ def getters(ctx):
     ev.call_fn(ctx.fn(BOX, 'Box.set_abc'), [box2] + pars + [o], {}, Path({}))
     ev.decide = None
     V2 = box2.attrs['_Box__vects']
-    bad = [(i, j) for i in range(3) for j in range(3) if not is_zero(sp.simplify(V2[i, j] - Vt[i, j]))]
+    bad = [(i, j) for i in range(3) for j in range(3) if not is_zero(sp.simplify(_unclip(V2[i, j]) - Vt[i, j]))]
     ctx.ob('GETTERS', BOX + '::Box.set_abc', 'reading (a,b,c,alpha,beta,gamma) from a LAMMPS-compatible cell and rebuilding returns the same vectors', not bad,
            'entries differing: %s' % bad, key='abc roundtrip')
 
